@@ -41,6 +41,11 @@ class C13(Hist1Prop):
     def gen_case(self, rng, k, tier):
         if k % 12 == 5:
             return self.gen_nd(rng)
+        if k % 5 == 2:
+            # the dtype machine (Model/DTypeMachine.lean, Theorems/C13_Machine.lean): a random history on real 1-D / adaptive
+            # / 2-D histograms; the machine must predict dtype, frequencies.dtype, errors2.dtype (and the type of the missed
+            # counts) after every operation
+            return {"kind": "dtm", "seed": rng.getrandbits(31), "ops": [], "tags": ["dtm"]}
         ops, tags = history1.history(rng, nops=(2, 8), invalid_share=0.15, dtype_focus=True)
         if not HAVE_F128:
             for o in ops:
@@ -215,10 +220,24 @@ class C13(Hist1Prop):
             return {"outs": t, "log": []}
         if case["kind"] == "nd_dtype":
             return self.run_nd(case)
+        if case["kind"] == "dtm":
+            from .. import dtm_gen
+            hist = dtm_gen.run_history(case["seed"])
+            return {"outs": {"lines": [l for l, st in hist if st is not None], "states": [st for l, st in hist if st is not None],
+                             "notes": [l for l, st in hist if st is None]}, "log": [l for l, st in hist if st is None][:4]}
         from .c18 import PROP as C18P
         return C18P.run_impl(case)
 
     def diff(self, case, model_ok, io):
+        if case["kind"] == "dtm":
+            got, want = io["outs"]["states"], list(model_ok)
+            d = []
+            if len(got) != len(want):
+                d.append(f"dtm: {len(want)} model states for {len(got)} lines")
+            for i, (a, b) in enumerate(zip(want, got)):
+                if a != b:
+                    d.append(f"dtm line {i} `{io['outs']['lines'][i]}`: model [{a}] impl [{b}]")
+            return d[:6]
         if case["kind"] == "tables":
             d = []
             for a in DT:
@@ -235,6 +254,13 @@ class C13(Hist1Prop):
             return []
         if case["kind"] == "nd_dtype":
             return self.oracle_nd(case, io)
+        if case["kind"] == "dtm":
+            fails = []
+            for line, st in zip(io["outs"]["lines"], io["outs"]["states"]):
+                t = st.split()
+                if not (t[0] == t[1] == t[2]):
+                    fails.append(f"inconsistent: after `{line}`: dtype {t[0]} over {t[1]} / {t[2]} arrays")
+            return fails[:4]
         outs, ops = io["outs"], case["ops"]
         fails = []
         for k, op in enumerate(ops):
@@ -359,6 +385,8 @@ class C13(Hist1Prop):
     def model_case(self, case, io):
         if case["kind"] == "nd_dtype":
             return None          # oracle only (the N-d dtype rules are those of the shared base class)
+        if case["kind"] == "dtm":
+            return {"kind": "dtm", "lines": io["outs"]["lines"]}
         return case
 
     def tags(self, case, io):
@@ -366,6 +394,8 @@ class C13(Hist1Prop):
             return ["tables"]
         if case["kind"] == "nd_dtype":
             return list(case["tags"]) + [f"step:{s}" for s in case["steps"]]
+        if case["kind"] == "dtm":
+            return ["dtm"] + sorted({"dtm:" + l.split()[0] for l in io["outs"]["lines"]})
         return super().tags(case, io)
 
     def nontrivial(self, case, io):
@@ -373,6 +403,8 @@ class C13(Hist1Prop):
             return True
         if case["kind"] == "nd_dtype":
             return len(case["rows"]) > 0
+        if case["kind"] == "dtm":
+            return len({st.split()[0] for st in io["outs"]["states"]}) > 1
         seen = {}
         for o in io["outs"]:
             for i, r in enumerate(o["regs"]):
